@@ -264,6 +264,8 @@ func main() {
 		}
 		fmt.Printf("REPLAY-RESULT reproduced=false class=%s other_violations=%d\n", want, c.S.ViolationCount)
 		os.Exit(0)
+	case "racepass":
+		racePass()
 	case "selftest":
 		out := ""
 		if len(os.Args) > 3 && os.Args[2] == "--out" {
